@@ -309,7 +309,7 @@ PROPS["C07"] = {
                   "c07_read_message_equals_slice_parse"]]
                  + [H("c07::c07_new_reserves_largest_declarable_message", "quick", 300, fallback_playback=[[[0]], [[1]]],
                       what="DltMessageReader::new reserves storage header + 65535 bytes (both storage modes)")]
-                 + [H("c07::c07_truncated_tail_any_schedule", "thorough", 3600, mem_gb=30), H("c07::c07_two_messages_any_schedule", "thorough", 5400, mem_gb=40), H("c07::c07_default_capacity_any_declared_length", "thorough", 5400, mem_gb=40)],
+                 + [H("c07::c07_truncated_tail_any_schedule", "thorough", 3600, mem_gb=30), H("c07::c07_two_messages_any_schedule", "thorough", 5400, mem_gb=40)],
 }
 
 PROPS["C15"] = {
